@@ -79,9 +79,14 @@ def single_qubit_gates(ctx, res, names=None) -> dict:
         if ci is None:
             res.bad("K-gate-literal", name, SQ, name, f"gate class {name} not found in the gate library", construct=name)
             continue
+        from ..fold import SignLost
         try:
             m, node = gate_literal(ctx, ci)
-        except NotFoldable as e:
+        except SignLost as e:
+            res.bad("K-gate-literal", name, f"{SQ}:{ci.node.lineno}", f"{name}.__init__",
+                    f"the matrix literal of {name} contains {e}: that is |cos| / |sin| of the half angle, so the signs of the entries are lost for angles beyond pi and the matrix is not proportional to {name}(theta) for every angle", construct=f"{name} literal")
+            continue
+        except (NotFoldable, ValueError, ZeroDivisionError) as e:
             raise AnalysisError(f"gate literal of {name} is not foldable: {e}") from e
         if not is_matrix(m):
             raise AnalysisError(f"gate literal of {name} did not fold to a matrix")
